@@ -54,6 +54,9 @@ type Scenario struct {
 	Cut         int     `json:"cut,omitempty"` // client cancels after this many messages (unbounded repeats)
 	Window      int     `json:"window"`
 	Target      string  `json:"target,omitempty"`
+	// Values2: POLL only - the client's configuration is replaced (SetConfig)
+	// before the first poll trigger; every later pass plays this one.
+	Values2 []VSpec `json:"values2,omitempty"`
 }
 
 type H struct{}
@@ -75,40 +78,10 @@ func (H) Generate(rng *simrt.Rand, prop, tier string) (any, simrt.Config) {
 	}
 	unbounded := false
 	for i := 1 + rng.Intn(6); i > 0; i-- {
-		v := VSpec{Kind: []string{"int", "int", "uint", "double", "string", "stringlist", "bool", "delete"}[rng.Intn(8)], Repeat: int32(1 + rng.Intn(5)),
-			TS: int64(rng.Intn(50)), DMin: int64(rng.Intn(5))}
-		v.DMax = v.DMin + int64(rng.Intn(6))
-		if rng.Chance(0.3) {
-			v.Seed = 1 + int64(rng.Intn(100))
-		}
-		if rng.Chance(0.08) && !unbounded {
-			v.Repeat = 0
+		v := genValue(rng, !unbounded)
+		if v.Repeat == 0 {
 			unbounded = true
-			if v.DMax == 0 {
-				v.DMax = 1 // an unbounded value that never advances would starve everything after it: not a configuration anybody uses
-				v.DMin = 1
-			}
 		}
-		switch v.Kind {
-		case "int", "uint", "double":
-			v.Dist = []string{"none", "range", "delta", "list", "rlist"}[rng.Intn(5)]
-			v.Min = int64(rng.Intn(50))
-			if v.Kind == "int" && rng.Chance(0.5) {
-				v.Min = -v.Min
-			}
-			v.Max = v.Min + int64(rng.Intn(100))
-			v.Init = v.Min + int64(rng.Intn(int(v.Max-v.Min+1)))
-			v.VDMin = -int64(rng.Intn(5))
-			v.VDMax = int64(rng.Intn(5))
-			if v.VDMin == 0 && v.VDMax == 0 {
-				v.VDMax = 1
-			}
-		case "string", "stringlist", "bool":
-			v.Dist = []string{"none", "list", "rlist"}[rng.Intn(3)]
-		default:
-			v.Dist = "none"
-		}
-		v.NOpts = 1 + rng.Intn(4)
 		sc.Values = append(sc.Values, v)
 	}
 	if unbounded {
@@ -120,7 +93,53 @@ func (H) Generate(rng *simrt.Rand, prop, tier string) (any, simrt.Config) {
 	if sc.Mode == "stream" && !unbounded {
 		sc.DisableEOF = rng.Chance(0.2)
 	}
+	if sc.Mode == "poll" && sc.Polls > 0 && !unbounded && rng.Chance(0.4) {
+		shift := int64(rng.Intn(200))
+		for i := 1 + rng.Intn(6); i > 0; i-- {
+			v := genValue(rng, false)
+			v.TS += shift
+			sc.Values2 = append(sc.Values2, v)
+		}
+	}
 	return sc, cfg
+}
+
+// genValue draws one configured value.
+func genValue(rng *simrt.Rand, mayBeUnbounded bool) VSpec {
+	v := VSpec{Kind: []string{"int", "int", "uint", "double", "string", "stringlist", "bool", "delete"}[rng.Intn(8)], Repeat: int32(1 + rng.Intn(5)),
+		TS: int64(rng.Intn(50)), DMin: int64(rng.Intn(5))}
+	v.DMax = v.DMin + int64(rng.Intn(6))
+	if rng.Chance(0.3) {
+		v.Seed = 1 + int64(rng.Intn(100))
+	}
+	if rng.Chance(0.08) && mayBeUnbounded {
+		v.Repeat = 0
+		if v.DMax == 0 {
+			v.DMax = 1 // an unbounded value that never advances would starve everything after it: not a configuration anybody uses
+			v.DMin = 1
+		}
+	}
+	switch v.Kind {
+	case "int", "uint", "double":
+		v.Dist = []string{"none", "range", "delta", "list", "rlist"}[rng.Intn(5)]
+		v.Min = int64(rng.Intn(50))
+		if v.Kind == "int" && rng.Chance(0.5) {
+			v.Min = -v.Min
+		}
+		v.Max = v.Min + int64(rng.Intn(100))
+		v.Init = v.Min + int64(rng.Intn(int(v.Max-v.Min+1)))
+		v.VDMin = -int64(rng.Intn(5))
+		v.VDMax = int64(rng.Intn(5))
+		if v.VDMin == 0 && v.VDMax == 0 {
+			v.VDMax = 1
+		}
+	case "string", "stringlist", "bool":
+		v.Dist = []string{"none", "list", "rlist"}[rng.Intn(3)]
+	default:
+		v.Dist = "none"
+	}
+	v.NOpts = 1 + rng.Intn(4)
+	return v
 }
 
 func (H) Shrinks(s any) []any {
@@ -155,6 +174,18 @@ func (H) Shrinks(s any) []any {
 		c := clone()
 		c.Polls--
 		out = append(out, c)
+	}
+	if len(sc.Values2) > 0 {
+		c := clone()
+		c.Values2 = nil
+		out = append(out, c)
+		for i := range sc.Values2 {
+			if len(sc.Values2) > 1 {
+				c := clone()
+				c.Values2 = append(c.Values2[:i], c.Values2[i+1:]...)
+				out = append(out, c)
+			}
+		}
 	}
 	return out
 }
@@ -355,6 +386,7 @@ func (H) Execute(x *common.Exec, s any) {
 			cs.SendMsg(&gpb.SubscribeRequest{Request: &gpb.SubscribeRequest_Subscribe{Subscribe: sl}})
 			polls := 0
 			perRound := 0
+			cur := sc
 			for {
 				m := &gpb.SubscribeResponse{}
 				if err := cs.RecvMsg(m); err != nil {
@@ -367,10 +399,14 @@ func (H) Execute(x *common.Exec, s any) {
 					scancel()
 					return
 				}
-				if sc.Mode == "poll" && expectedRoundLen(sc) > 0 && perRound == expectedRoundLen(sc) {
+				if sc.Mode == "poll" && expectedRoundLen(cur) > 0 && perRound == expectedRoundLen(cur) {
 					perRound = 0
 					if polls < sc.Polls {
 						polls++
+						if polls == 1 && len(sc.Values2) > 0 {
+							cur = second(sc)
+							cl.SetConfig(build(cur))
+						}
 						cs.SendMsg(&gpb.SubscribeRequest{Request: &gpb.SubscribeRequest_Poll{Poll: &gpb.Poll{}}})
 					} else {
 						cl.Close()
@@ -424,6 +460,9 @@ func (H) Execute(x *common.Exec, s any) {
 	if sc.Mode == "poll" && sc.Polls > 0 {
 		x.Fault("poll-regenerates-queue")
 	}
+	if len(sc.Values2) > 0 {
+		x.Fault("configuration-replaced-between-polls")
+	}
 	hh := fnv.New64a()
 	for _, e := range em[0] {
 		fmt.Fprint(hh, e.path, e.ts, e.val, e.sync)
@@ -463,32 +502,49 @@ func (H) Execute(x *common.Exec, s any) {
 	}
 	for e := 0; e < engines; e++ {
 		es := em[e]
-		// split into rounds (POLL re-plays the configuration on every trigger)
-		per := expectedRoundLen(sc)
+		// split into rounds (POLL re-plays the configuration on every trigger;
+		// after a SetConfig, the new one)
+		off := 0
+		total := 0
 		for r := 0; r < rounds; r++ {
+			cur := sc
+			if r >= 1 && len(sc.Values2) > 0 {
+				cur = second(sc)
+			}
+			per := expectedRoundLen(cur)
+			total += per
 			var round []emitted
 			if per > 0 {
-				if (r+1)*per > len(es) {
+				if off+per > len(es) {
 					if sc.Cut == 0 {
-						x.Violate("C20/missing-emissions", "round %d: %d messages emitted in total, %d expected per round\n%s", r, len(es), per, show(es))
+						x.Violate("C20/missing-emissions", "round %d: %d messages emitted in total, %d expected by the end of this round\n%s", r, len(es), off+per, show(es))
 						return
 					}
 					break
 				}
-				round = es[r*per : (r+1)*per]
+				round = es[off : off+per]
+				off += per
 			} else {
 				round = es
 			}
-			judgeRound(x, sc, round, show)
+			judgeRound(x, cur, round, show)
 			if len(x.Viol) > 0 {
 				return
 			}
 		}
-		if per > 0 && sc.Cut == 0 && len(es) != rounds*per {
-			x.Violate("C20/extra-emissions", "%d messages emitted, expected %d rounds of %d\n%s", len(es), rounds, per, show(es))
+		if expectedRoundLen(sc) > 0 && sc.Cut == 0 && len(es) != total {
+			x.Violate("C20/extra-emissions", "%d messages emitted, expected %d in %d round(s)\n%s", len(es), total, rounds, show(es))
 			return
 		}
 	}
+}
+
+// second is the scenario as it is after the SetConfig of a POLL run.
+func second(sc *Scenario) *Scenario {
+	c := *sc
+	c.Values = sc.Values2
+	c.Values2 = nil
+	return &c
 }
 
 // expectedRoundLen is the number of messages of one pass over the
